@@ -216,21 +216,21 @@ class FieldMappingTransformationBase(DetectionItemTransformation):
             item for mapping in map(self._apply_field_name, rule.fields) for item in mapping
         ]
         if isinstance(rule, SigmaCorrelationRule):
-            if rule.group_by is not None:
-                # first iterate over aliases, map the field names contained in them and keep track
-                # of aliases used later in grouping list and shouldn't be mapped.
-                aliases = set()
-                for alias in rule.aliases:
-                    aliases.add(alias.alias)
-                    for rule_reference, field_name in alias.mapping.items():
-                        mapped_field_name = self._apply_field_name(field_name)
-                        if len(mapped_field_name) > 1:
-                            raise SigmaConfigurationError(
-                                "Field name mapping transformation can't be applied to correlation rule alias mapping because it results in multiple field names."
-                            )
-                        alias.mapping[rule_reference] = mapped_field_name[0]
+            # first iterate over aliases, map the field names contained in them and keep track
+            # of aliases used later in grouping list and shouldn't be mapped.
+            aliases = set()
+            for alias in rule.aliases:
+                aliases.add(alias.alias)
+                for rule_reference, field_name in alias.mapping.items():
+                    mapped_field_name = self._apply_field_name(field_name)
+                    if len(mapped_field_name) > 1:
+                        raise SigmaConfigurationError(
+                            "Field name mapping transformation can't be applied to correlation rule alias mapping because it results in multiple field names."
+                        )
+                    alias.mapping[rule_reference] = mapped_field_name[0]
 
-                # now iterate over grouping list and map field names if not contained in aliases
+            # now iterate over grouping list and map field names if not contained in aliases
+            if rule.group_by is not None:
                 rule.group_by = [
                     item
                     for field_name in rule.group_by
